@@ -13,7 +13,7 @@ Variable c : cfg.
 Hypothesis Hmax : max_trials c = None.
 Variable score_fn : V → scored unit.
 Definition habort (g : gstate) (id : nat) (v : V) : gstate := g.   (* the subclass tail is skipped when end_trial raises *)
-Notation stepg := (step (∅ : V) score_fn (gpopulate sp) gend habort (λ g, g) c).
+Notation stepg := (step (∅ : V) score_fn (gpopulate sp) gend habort (λ g, g) (λ v, v) c).
 
 Definition waiting_ids (s : ost) : list nat := map snd (ongoing s) ++ retryq s.
 Definition GInv (s : ost) : Prop :=
@@ -41,7 +41,7 @@ Proof.
   - intros id H. by apply elem_of_nil in H.
 Qed.
 
-Theorem ginv_create s tu : GInv s → GInv (fst (do_create (∅ : V) (gpopulate sp) c s tu)).
+Theorem ginv_create s tu : GInv s → GInv (fst (do_create (∅ : V) (gpopulate sp) (λ v, v) c s tu)).
 Proof.
   intros HG. unfold do_create.
   destruct (alookup tu (ongoing s)) as [id0|] eqn:Elk.
@@ -140,8 +140,8 @@ Fixpoint no_abort (tr : list (@resp V * ost)) : Prop :=
   match tr with [] => True | (r, _) :: rest => r ≠ RAbort ∧ no_abort rest end.
 
 Lemma run_ginv ops : ∀ s, GInv s → Forall static_op ops →
-  no_abort (run (∅ : V) score_fn (gpopulate sp) gend habort (λ g, g) c s ops) →
-  Forall (λ rs, GInv (snd rs)) (run (∅ : V) score_fn (gpopulate sp) gend habort (λ g, g) c s ops).
+  no_abort (run (∅ : V) score_fn (gpopulate sp) gend habort (λ g, g) (λ v, v) c s ops) →
+  Forall (λ rs, GInv (snd rs)) (run (∅ : V) score_fn (gpopulate sp) gend habort (λ g, g) (λ v, v) c s ops).
 Proof.
   induction ops as [|o r IH]; intros s HG Hst Hna; cbn; [constructor|].
   apply Forall_cons in Hst as [Ho Hst]. cbn in Hna.
@@ -157,7 +157,7 @@ Qed.
 
 (* C09: when the grid itself answers STOPPED, every combination has been tried exactly once *)
 Theorem grid_stopped_complete s tu s' id v : GInv s → Inv s →
-  do_create (∅ : V) (gpopulate sp) c s tu = (s', RTrial id STOPPED v) →
+  do_create (∅ : V) (gpopulate sp) (λ v, v) c s tu = (s', RTrial id STOPPED v) →
   map (@t_data V unit) (trials s') ≡ₚ C.
 Proof.
   intros HG HI Hstep.
